@@ -333,10 +333,47 @@ def parse_assumptions(log, props_files):
     return res
 
 
+def _cone_stamp(f):
+    """Identity of the compiled cone of a property file: (path, size, mtime) of every .vo in it plus the .v text."""
+    h = hashlib.sha1()
+    for v in cone([f]):
+        vo = os.path.join(COQ, v[:-2] + '.vo')
+        try:
+            st = os.stat(vo)
+            h.update(('%s:%d:%d;' % (v, st.st_size, st.st_mtime_ns)).encode())
+        except OSError:
+            h.update(('%s:missing;' % v).encode())
+    h.update(open(os.path.join(COQ, f), 'rb').read())
+    return h.hexdigest()
+
+
 def print_assumptions(props_files, timeout=600):
-    """Re-run coqc on the Props files (they are tiny: `exact lemma`) to capture Print Assumptions output."""
+    """Re-run coqc on the Props files (they are tiny: `exact lemma`) to capture Print Assumptions output.
+    The output is remembered per property file together with a stamp of the compiled cone (every .vo's size and
+    mtime): it is re-used only while no file of the cone has been rebuilt."""
     out = {}
+    cache_dir = os.path.join(COQ, '.pa_cache')
+    os.makedirs(cache_dir, exist_ok=True)
     for f in props_files:
+        cpath = os.path.join(cache_dir, f.replace('/', '_') + '.json')
+        stamp0 = _cone_stamp(f)
+        if not os.environ.get('VERIF_NO_PA_CACHE'):
+            try:
+                c = json.load(open(cpath))
+                if c['stamp'] == stamp0:
+                    out[f] = c['result']; continue
+            except Exception:
+                pass
+        _print_assumptions_one(f, out, timeout)
+        if 'error' not in out[f]:
+            stamp1 = _cone_stamp(f)     # coqc rewrote the property file's own .vo
+            try: json.dump({'stamp': stamp1, 'result': out[f]}, open(cpath, 'w'))
+            except Exception: pass
+    return out
+
+
+def _print_assumptions_one(f, out, timeout):
+    for f in [f]:
         src = strip_comments(open(os.path.join(COQ, f)).read())
         wanted = re.findall(r'Print\s+Assumptions\s+([\w\']+)\s*\.', src)
         with CoqLock():
